@@ -20,6 +20,7 @@ import (
 	"bytes"
 	"context"
 	"crypto/sha256"
+	"encoding/binary"
 	"encoding/hex"
 	"errors"
 	"io"
@@ -477,6 +478,16 @@ func (a *oauth2IntrospectionAuthenticator) calculateCacheKey(ep *endpoint.Endpoi
 	digest.Write(ep.Hash())
 	digest.Write(stringx.ToBytes(templatedURL))
 	digest.Write(stringx.ToBytes(token))
+
+	// the ttl can be redefined on the rule level. An entry stored by an instance with a longer
+	// ttl must not be used by an instance configured with a shorter one beyond that ttl
+	if a.ttl != nil {
+		const int64BytesCount = 8
+
+		ttlBytes := make([]byte, int64BytesCount)
+		binary.LittleEndian.PutUint64(ttlBytes, uint64(*a.ttl))
+		digest.Write(ttlBytes)
+	}
 
 	return hex.EncodeToString(digest.Sum(nil))
 }
